@@ -64,7 +64,8 @@ def build_lib(force=False, quiet=True):
     try:
         if force:
             sh(["make", "-f", "Makefile.coq", "clean"], 120, cwd=LIB)
-        if not os.path.exists(os.path.join(LIB, "Makefile.coq")) or force:
+        mk, proj = os.path.join(LIB, "Makefile.coq"), os.path.join(LIB, "_CoqProject")
+        if force or not os.path.exists(mk) or os.path.getmtime(mk) < os.path.getmtime(proj):
             rc, out, _ = sh(["coq_makefile", "-f", "_CoqProject", "-o", "Makefile.coq"], 60, cwd=LIB)
             if rc:
                 return False, out
